@@ -3,12 +3,12 @@ import os
 import sys
 import z3
 sys.path.insert(0, os.path.dirname(os.path.dirname(os.path.abspath(__file__))))
-from props.common import main, Run  # noqa: E402
+from props.common import main, Run, ALL_SIDECARS  # noqa: E402
 from props import faces  # noqa: E402
 from pyvc.state import State  # noqa: E402
 from pyvc.sorts import V, vbool, vint  # noqa: E402
 
-SIDE = ("severity", "results", "analysis", "externals", "pickled_api", "loader", "hooks")
+SIDE = ALL_SIDECARS
 OPS = {"__lt__": lambda a, b: a < b, "__gt__": lambda a, b: a > b, "__eq__": lambda a, b: a == b,
        "__ge__": lambda a, b: a >= b, "__le__": lambda a, b: a <= b}
 
